@@ -47,17 +47,24 @@ AUDIT = "RV/C10/Audit.lean"
 DRIVER = "drv_c10"
 CASES = {"quick": 2600, "thorough": 60000, "search": 20000}
 RULE = ("random update requests (1-4 operations: INSERT/DELETE DATA, DELETE WHERE, DELETE/INSERT..WHERE with WITH / USING / "
-        "USING NAMED / GRAPH templates and patterns, CLEAR, DROP, ADD, MOVE, COPY) over datasets with 0-3 named graphs "
+        "USING NAMED / GRAPH templates and patterns — WHERE clauses: BGP blocks with a FILTER / UNION / sub-select, or (a fifth of "
+        "the requests) full-algebra patterns with OPTIONAL, MINUS, UNION, FILTER, BIND, VALUES, GRAPH, sub-select, EXISTS — "
+        "CLEAR, DROP, ADD, MOVE, COPY) over datasets with 0-3 named graphs "
         "(one possibly registered-but-empty, one missing), through Graph / ConjunctiveGraph / Dataset with the union "
         "switch on and off; non-trivial = the request changed the dataset or a WHERE had at least one solution; "
         "distinct = distinct (api, union, init, request)")
 ASSUMPTIONS = ["the Memory store behind Graph/ConjunctiveGraph/Dataset behaves as a set of quads (C01/C02)",
-               "WHERE clauses are limited to basic graph patterns in the default graph and in GRAPH blocks plus one "
-               "(in)equality FILTER against an IRI; richer patterns are C04's subject",
+               "WHERE clauses are basic graph patterns in the default graph and in GRAPH blocks plus one (in)equality FILTER "
+               "against an IRI (own matcher), or patterns of the full algebra evaluated by the C04 model of evaluate.py; on "
+               "patterns outside C04's Alg.safe (its known findings) and on patterns whose solutions depend on empty graphs "
+               "being graphs of the dataset the specification oracle abstains (model and implementation are still compared)",
+               "literals in full-algebra requests are the typed ones of LIT (= litTable of Model.lean)",
                "BNode() returns identifiers distinct from each other and from every identifier already present",
                "SPARQL_LOAD_GRAPHS is False (no network); LOAD and CREATE are outside the property's operation list"]
 TRUSTED = ["harness/c10.py generators, request printer, canonical numbering of minted blank nodes (component-wise exact)",
-           "lean/RV/C10/Drive.lean line protocol", "harness/isoutil.py (exact isomorphism decision)"]
+           "lean/RV/C10/Drive.lean line protocol", "harness/isoutil.py (exact isomorphism decision)",
+           "harness/sparqlgen.py (pattern generator, §18 reference evaluator, Python mirror of RV/C04/Safe.lean)",
+           "harness/c10.py enc_alg (encoding of rdflib's translated WHERE tree for the driver)", "lean/RV/C04 (model + proofs of C04)"]
 
 # ------------------------------------------------------------------ vocabulary
 
@@ -1602,6 +1609,12 @@ def _gen_case(rng, tier, i):
         if walg is None:
             return gen_modify(gs, False)
         wvars = sorted(40 + v for v in sg.in_scope(q["where"]))
+        if wvars and rng.random() < 0.25 and max(sg.all_vars_group(q["where"])) <= 7:
+            # BIND of a comparison that is an ERROR for IRIs / blank nodes / unbound (the solution is kept, ?v48 unbound)
+            # and a boolean for literals
+            walg[1].append(["bind", ["cmp", rng.choice(["lt", "gt", "le"]), ["var", rng.choice(wvars)],
+                                     ["const", rng.choice([21, 24, 25])]], 48])
+            wvars = wvars + [48]
         tg = [0] if single else ([0, 0, 0] + anyg + (wvars[:1] if rng.random() < 0.15 else []))
         c, d, i = rng.random(), None, None
         if c < 0.6:
